@@ -96,6 +96,22 @@ func schnorrCase(x *hx.Ctx, msg []byte) {
 	x.Err("empty", schnorr.Verify(s, pub, msg, nil))
 	sigOther, _ := schnorr.Sign(s, priv2, msg)
 	x.Err("signature of another key", schnorr.Verify(s, pub, msg, sigOther))
+	// one scheme object, one message buffer and one signature buffer reused by the caller: what counts is the content
+	// at the time of the call, and the caller's buffers are left alone
+	buf := []byte("buffer content 1")
+	sb1, err := sch.Sign(priv, buf)
+	x.NoErr("Sign buffer content 1", err)
+	keep := append([]byte{}, sb1...)
+	x.NoErr("Verify buffer content 1", sch.Verify(pub, buf, sb1))
+	x.Require("Verify leaves message and signature buffers unchanged", bytes.Equal(buf, []byte("buffer content 1")) && bytes.Equal(sb1, keep))
+	copy(buf, "buffer content 2")
+	x.Err("signature on the old content of a reused buffer", sch.Verify(pub, buf, sb1))
+	sb2, err := sch.Sign(priv, buf)
+	x.NoErr("Sign buffer content 2", err)
+	x.NoErr("Verify buffer content 2 (same buffer, same scheme object)", sch.Verify(pub, buf, sb2))
+	copy(sb1, sb2)
+	x.NoErr("Verify with a reused signature buffer", sch.Verify(pub, buf, sb1))
+	x.NoErr("Verify the first message again", sch.Verify(pub, msg, sig))
 	// strength: with s' = s + d the equation s'G = R + hA is never satisfied (d != 0)
 	S := s.Scalar()
 	_ = S.UnmarshalBinary(sig[pl:])
